@@ -143,8 +143,8 @@ def primary_level(R, ctx):
                 bad = f"file writer present but {verb} called {len(on_file)} times on it"
             if fw == 'Some' and ow == 'Some' and not failed and len(on_other) != 1:
                 bad = f"other writer present but {verb} called {len(on_other)} times on it"
-            if ow is None and fw == 'Some' and not failed and verb == 'shutdown':
-                bad = "the other writer is not examined"
+            if ow is None and fw == 'Some' and not failed:
+                bad = f"with a file writer present (and its {verb} successful) the other writer is not even examined: it is never {verb}ed when both are configured"
         R.check('R04.1', f"{path}|fan-out", not bad and len(rows) >= 3, f"{len(rows)} rows: {verb} on the file writer and on the other writer",
                 f"{path}: {bad}", where=b.loc())
 
